@@ -115,6 +115,10 @@ type Noise struct {
 	TypeAlias map[string][]string
 	// LeadingZeros: numbers of unnamed values are written with redundant leading zeros (%01, 002:, @00)
 	LeadingZeros bool
+	// EmptyQuoted: every second unnamed global variable, function, alias and instruction result is defined
+	// with the empty quoted name (`@"" = global ...`, `define void @""()`, `%"" = add ...`), which LLVM reads as
+	// unnamed; uses are spelled by number as always.
+	EmptyQuoted bool
 	// VecAlias: vector types are spelled through named aliases (`%$v0 = type <4 x i32>`), up to six per
 	// module, created on first use while the text is rendered and defined at the top of the text.
 	VecAlias bool
